@@ -314,6 +314,7 @@ func c14Pairs() [][2]c14Op {
 var c14PairCtr int
 
 func TestC14(t *testing.T) {
+	layoutLenient = true
 	pairs := c14Pairs()
 	ev.Check(t, "c14_pairs", ev.N(6*len(pairs), 60*len(pairs)), func(t *rapid.T) c14Case {
 		c := c14Base(t)
